@@ -155,6 +155,11 @@ impl Workspace {
         label: impl Into<String>,
         files: &[PathBuf],
     ) -> io::Result<Checkpoint> {
+        // Refuse bad paths before anything is created in the checkpoint store.
+        for path in files {
+            self.to_relative(path)?;
+        }
+
         let checkpoint_id = Uuid::new_v4().to_string();
         let label = label.into();
         let created_at_ms = now_ms();
@@ -167,12 +172,15 @@ impl Workspace {
         for path in files {
             let rel = self.to_relative(path)?;
             let dest = files_root.join(&rel);
+            // Always the file under the workspace root: a relative spelling must not be looked
+            // up against the process working directory.
+            let path = self.root.join(&rel);
 
             if path.exists() {
                 if let Some(parent) = dest.parent() {
                     fs::create_dir_all(parent)?;
                 }
-                let bytes = fs::read(path)?;
+                let bytes = fs::read(&path)?;
                 let hash = hash_bytes(&bytes);
                 fs::write(&dest, &bytes)?;
                 entries.push(CheckpointFile {
@@ -290,9 +298,22 @@ impl Workspace {
         } else {
             self.root.join(path)
         };
-        abs.strip_prefix(&self.root)
+        let rel = abs
+            .strip_prefix(&self.root)
             .map(|p| p.to_path_buf())
-            .map_err(|_| io::Error::new(io::ErrorKind::InvalidInput, "path outside workspace"))
+            .map_err(|_| io::Error::new(io::ErrorKind::InvalidInput, "path outside workspace"))?;
+        // `strip_prefix` is lexical: parent segments survive it and would leave the root (and,
+        // joined under the checkpoint directory, the checkpoint store) again.
+        if rel
+            .components()
+            .any(|component| matches!(component, Component::ParentDir))
+        {
+            return Err(io::Error::new(
+                io::ErrorKind::InvalidInput,
+                "path escapes workspace root",
+            ));
+        }
+        Ok(rel)
     }
 
     fn safe_join(&self, rel: &Path) -> io::Result<PathBuf> {
